@@ -14,12 +14,14 @@ def tasks(tier, seed):
         ts += gen.dfa_src_tasks(2, "ab", 1)
         ts += [{"kind": "rnd_dfa", "count": 500, "seed": seed * 50 + i, "maxk": 6} for i in range(3)]
         ts += [{"kind": "late_split_dfa", "count": 8, "seed": seed * 50 + i} for i in range(6)]
+        ts += [{"kind": "counter_dfa", "count": 12, "seed": seed * 50 + i, "orders": 10} for i in range(4)]
     else:
         ts = gen.dfa_src_tasks(3, "ab", 16, pools=(0, 1, 2, 3, 4, 5, 6, 7, 8))
         ts += gen.dfa_src_tasks(4, "ab", 64, stride=41, pools=(0, 1, 2, 3, 4, 5, 6, 7, 8))
         ts += gen.dfa_src_tasks(4, "a", 4, pools=(0, 5))
         ts += [{"kind": "rnd_dfa", "count": 2000, "seed": seed * 50 + i, "maxk": 7} for i in range(32)]
         ts += [{"kind": "late_split_dfa", "count": 20, "seed": seed * 50 + i} for i in range(16)]
+        ts += [{"kind": "counter_dfa", "count": 40, "seed": seed * 50 + i, "orders": 40} for i in range(16)]
     return gen.spread(ts, hs)
 
 
@@ -63,6 +65,34 @@ def one(src):
                        "final": [enc(B) for B in end[0]["P"]], "src": src}
 
 
+def order_events(src, orders, only=None):
+    """(G) dfa_minimize under FORCED orders of list(Q) (hook _verif.ordered, site tf.order): the table-filling sweep
+    and the class construction of dfa_from_table both follow that order"""
+    import random
+    import gambatools.dfa_algorithms as da
+    from gambatools import _verif
+    from ..schedule_replay import OrderChooser
+    if not _verif.ON:
+        return
+    D = gen.build_dfa(src)
+    names = sorted(str(q) for q in D.Q)
+    rng = random.Random(src["seed"])
+    perms = [list(only)] if only is not None else [rng.sample(names, len(names)) for _ in range(orders)]
+    for perm in perms:
+        pre = ab.dfa(D)
+        _verif.CHOOSER = OrderChooser("tf.order", perm)
+        try:
+            R, exc = guarded(lambda: da.dfa_minimize(D))
+        finally:
+            _verif.CHOOSER = None
+        _verif.take()
+        ev = {"op": "minimise", "algo": "dfa_minimize", "fa": pre, "exc": exc, "post": ab.dfa(D),
+              "src": dict(src, tf_order=perm)}
+        if exc == "none":
+            ev["res"] = ab.dfa(R)
+        yield ev
+
+
 def drive(task):
     if task["kind"] == "sched_replay":
         from .. import schedule_replay
@@ -70,12 +100,18 @@ def drive(task):
         return
     for src in gen.dfa_srcs(task):
         yield from one(src)
+        if task["kind"] == "counter_dfa":
+            yield from order_events(src, task.get("orders", 10))
 
 
 def redrive(src):
     if src["kind"] == "gen_line":
         from .. import schedule_replay
         yield from schedule_replay.replay_line(src["line"])
+        return
+    order = src.pop("tf_order", None)
+    if order is not None:
+        yield from order_events(src, 1, only=order)
         return
     yield from one(src)
 
